@@ -123,6 +123,7 @@ type Contract struct {
 	Pure     bool            // no heap effect (deps / trusted)
 	Trusted  bool            // body not verified (deps are always trusted)
 	Abstract bool            // assumed model of an interface method: no impl check
+	CallAsserts []CallAssert // assertions at call sites inside this function (callsite F N requires ...)
 	NoCallbacks bool         // closure bodies this function passes as callbacks are not verified here (stated as unverified)
 	PureCalls bool           // calls of function-typed parameters have no heap effect (assumed)
 	Callbacks []CallbackSpec
@@ -132,6 +133,15 @@ type Contract struct {
 	Notes    []string
 	Ghost    []GhostStmt
 	Depth    string
+}
+
+// CallAssert: `callsite F N requires [label:] expr` - at the N-th call (in source order) of a function named F inside
+// the function under contract, expr must hold; expr is over the locals at that point, the hidden loop indices and the
+// callee's arguments bound as _<parameter name>.
+type CallAssert struct {
+	Callee string
+	Ord    int
+	Clause Clause
 }
 
 type CallbackSpec struct {
@@ -208,7 +218,7 @@ type tok struct {
 var clauseKW = map[string]bool{
 	"requires": true, "ensures": true, "modifies": true, "loop": true, "invariant": true, "decreases": true,
 	"property": true, "wraps": true, "func": true, "pred": true, "pure": true, "trusted": true, "inline": true,
-	"frame": true, "callers": true, "type": true, "package": true, "nosafety": true, "note": true, "recursion": true, "ghost": true, "argpolicy": true, "ufunc": true, "abstract": true, "axiom": true, "purecalls": true, "nocallbacks": true, "callback": true,
+	"frame": true, "callers": true, "type": true, "package": true, "nosafety": true, "note": true, "recursion": true, "ghost": true, "argpolicy": true, "ufunc": true, "abstract": true, "axiom": true, "purecalls": true, "nocallbacks": true, "callsite": true, "callback": true,
 }
 
 func lexSpec(lines []string, lineNos []int) ([]tok, error) {
@@ -751,6 +761,19 @@ func parseSpecFile(path string, defaultPkg string) (sf *SpecFile, err error) {
 				cb.Cond = p.expr(1)
 			}
 			cur.Callbacks = append(cur.Callbacks, cb)
+		case "callsite":
+			ca := CallAssert{Callee: p.next().s}
+			ca.Ord, _ = strconv.Atoi(p.next().s)
+			if !p.isKW("requires") {
+				p.fail("callsite F N requires ...")
+			}
+			p.next()
+			label, e, line := p.clauseExpr()
+			if label == "" {
+				label = fmt.Sprintf("c%d", len(cur.CallAsserts)+1)
+			}
+			ca.Clause = Clause{label, e, line, e.String()}
+			cur.CallAsserts = append(cur.CallAsserts, ca)
 		case "nocallbacks":
 			cur.NoCallbacks = true
 		case "purecalls":
